@@ -342,13 +342,26 @@ fn collect_items(w: &mut World, src: &Path, file: &Path, module: &str, cfg: &Cfg
 }
 
 /// Shape of a function body: the pre-order sequence of its literals, operators, called methods / functions,
-/// macro names, control-flow keywords, casts and constant / variant paths.  Local variable names, types of
-/// let bindings, comments and formatting are not part of it.
+/// macro names, control-flow keywords, casts, constant / variant paths, field names, and the uses of locals by binding
+/// number.  Local variable NAMES, types of let bindings, comments and formatting are not part of it.
 struct Shape {
     toks: Vec<String>,
+    /// local bindings in binding order (parameters first): a use of a local is recorded as the number of its binding, so
+    /// renaming locals changes nothing while exchanging two of them (`a - b` for `b - a`) does
+    binds: Vec<String>,
 }
 
 impl Shape {
+    fn bind(&mut self, name: String) {
+        self.binds.push(name);
+        self.toks.push(format!("bind {}", self.binds.len() - 1));
+    }
+    fn use_local(&mut self, name: &str) {
+        match self.binds.iter().rposition(|b| b == name) {
+            Some(i) => self.toks.push(format!("var {i}")),
+            None => self.toks.push(format!("free {name}")),
+        }
+    }
     fn path_tok(p: &syn::Path) -> Option<String> {
         let segs: Vec<String> = p.segments.iter().map(|s| s.ident.to_string()).collect();
         let last = segs.last()?.clone();
@@ -408,7 +421,15 @@ impl<'ast> syn::visit::Visit<'ast> for Shape {
             Expr::Path(p) => {
                 if let Some(t) = Shape::path_tok(&p.path) {
                     self.toks.push(format!("path {t}"));
+                } else if let Some(id) = p.path.get_ident() {
+                    let id = id.to_string();
+                    self.use_local(&id);
                 }
+                return;
+            }
+            Expr::Field(f) => {
+                self.visit_expr(&f.base);
+                self.toks.push(format!("field {}", f.member.to_token_stream()));
                 return;
             }
             Expr::Macro(m) => {
@@ -445,6 +466,15 @@ impl<'ast> syn::visit::Visit<'ast> for Shape {
                 if let Some(t) = Shape::path_tok(&s.path) {
                     self.toks.push(format!("struct {t}"));
                 }
+                for fv in &s.fields {
+                    self.toks.push(format!("fv {}", fv.member.to_token_stream()));
+                    self.visit_expr(&fv.expr);
+                }
+                if let Some(r) = &s.rest {
+                    self.toks.push("fv ..".into());
+                    self.visit_expr(r);
+                }
+                return;
             }
             Expr::Let(_) => self.toks.push("iflet".into()),
             Expr::Assign(_) => self.toks.push("assign".into()),
@@ -468,6 +498,20 @@ impl<'ast> syn::visit::Visit<'ast> for Shape {
                 if let Some(t) = Shape::path_tok(&ps.path) {
                     self.toks.push(format!("pat {t}"));
                 }
+                for fp in &ps.fields {
+                    self.toks.push(format!("pf {}", fp.member.to_token_stream()));
+                    self.visit_pat(&fp.pat);
+                }
+                return;
+            }
+            Pat::Ident(pi) => {
+                let name = pi.ident.to_string();
+                // an upper-case identifier pattern is a constant or unit variant, not a binding
+                if name.chars().next().map(|c| c.is_uppercase()).unwrap_or(false) {
+                    self.toks.push(format!("pat {name}"));
+                } else {
+                    self.bind(name);
+                }
             }
             Pat::Wild(_) => self.toks.push("pat _".into()),
             Pat::Range(_) => self.toks.push("pat range".into()),
@@ -481,12 +525,14 @@ impl<'ast> syn::visit::Visit<'ast> for Shape {
         match i {
             Item::Fn(f) => {
                 self.toks.push(format!("fn {}", f.sig.ident));
+                self.sig(&f.sig);
                 syn::visit::Visit::visit_block(self, &f.block);
             }
             Item::Impl(im) => {
                 for ii in &im.items {
                     if let syn::ImplItem::Fn(f) = ii {
                         self.toks.push(format!("fn {}", f.sig.ident));
+                        self.sig(&f.sig);
                         syn::visit::Visit::visit_block(self, &f.block);
                     }
                 }
@@ -496,8 +542,21 @@ impl<'ast> syn::visit::Visit<'ast> for Shape {
     }
 }
 
-fn shape_of(block: &syn::Block) -> Vec<String> {
-    let mut s = Shape { toks: vec![] };
+impl Shape {
+    /// parameters are bound in signature order before the body is read
+    fn sig(&mut self, sig: &syn::Signature) {
+        for a in &sig.inputs {
+            match a {
+                syn::FnArg::Receiver(_) => self.bind("self".to_string()),
+                syn::FnArg::Typed(pt) => syn::visit::Visit::visit_pat(self, &pt.pat),
+            }
+        }
+    }
+}
+
+fn shape_of(sig: &syn::Signature, block: &syn::Block) -> Vec<String> {
+    let mut s = Shape { toks: vec![], binds: vec![] };
+    s.sig(sig);
     syn::visit::Visit::visit_block(&mut s, block);
     s.toks
 }
@@ -1566,7 +1625,7 @@ fn main() {
     let mut shapes: Vec<(String, Vec<String>)> = vec![];
     for li in &w.fns {
         if let Item::Fn(f) = &li.item {
-            shapes.push((mod_join(&li.module, &f.sig.ident.to_string()), shape_of(&f.block)));
+            shapes.push((mod_join(&li.module, &f.sig.ident.to_string()), shape_of(&f.sig, &f.block)));
         }
     }
     for li in &w.items {
@@ -1593,7 +1652,7 @@ fn main() {
                         if cfg_of(&f.attrs).is_test() {
                             continue;
                         }
-                        shapes.push((format!("{}::{}", mod_join(&li.module, &prefix), f.sig.ident), shape_of(&f.block)));
+                        shapes.push((format!("{}::{}", mod_join(&li.module, &prefix), f.sig.ident), shape_of(&f.sig, &f.block)));
                     }
                 }
             }
@@ -1601,7 +1660,7 @@ fn main() {
                 for ti in &t.items {
                     if let syn::TraitItem::Fn(f) = ti {
                         if let Some(b) = &f.default {
-                            shapes.push((format!("{}::{}", mod_join(&li.module, &format!("trait {}", t.ident)), f.sig.ident), shape_of(b)));
+                            shapes.push((format!("{}::{}", mod_join(&li.module, &format!("trait {}", t.ident)), f.sig.ident), shape_of(&f.sig, b)));
                         }
                     }
                 }
